@@ -273,6 +273,7 @@ func nearMisses() []ParseCase {
 	rej("NUL", "$\x00", "\"a\x00b\"", "$.a\x00b", "/* \x00 */ $", "\x00")
 	rej("invalid UTF-8", "$.\xff", "\"\xc3\"", "\"\xe2\x82\"", "$ /* \xfe */", "\xc0\xaf", "\"\xed\xa0\x80\"", "\"\xf4\x90\x80\x80\"", "$.a\xc3", "\"\x80\"")
 	rej("unknown or unsupported like_regex flag", `$ like_regex "a" flag "x"`, `$ like_regex "a" flag "z"`, `$ like_regex "a" flag "ix"`, `$ like_regex "a" flag "I"`, `$ like_regex "a" flag "g"`, `$ like_regex "a" flag " "`, `$ like_regex "a" flag "i,s"`, `($ like_regex "a" flag "z").a`, `($ like_regex "(").type()`, `(($ like_regex "a" flag "x") is unknown).a`)
+	acc("q patterns holding regexp syntax (they compile, and run, as literals)", `$ like_regex "C:\\Users\\Eve" flag "q"`, `$ like_regex "\\E" flag "q"`, `$ like_regex "a\\Eb(" flag "iq"`, `$ like_regex "\\Qa\\E[" flag "q"`, `$ like_regex "a\\" flag "q"`, `$ like_regex "\\" flag "qs"`, `$[*] ? (@ like_regex "\\E*" flag "q")`)
 	acc("supported like_regex flags", `$ like_regex "a" flag "i"`, `$ like_regex "a" flag "ismq"`, `$ like_regex "a" flag ""`, `$ like_regex "a(" flag "q"`, `$ like_regex "a" flag "iiss"`)
 	rej("pattern Go's regexp cannot compile", `$ like_regex "("`, `$ like_regex "a)"`, `$ like_regex "*a"`, `$ like_regex "a{2,1}"`, `$ like_regex "[a"`, `$ like_regex "\\"`, `$ like_regex "a{1001}"`, `$ like_regex "(?P<n"`, `$ like_regex "\\8"`, `$ like_regex "(?z)"`, `$ like_regex "a**"`, `$ like_regex "[z-a]"`, `$ like_regex "\\pX"`, `$ like_regex "(" flag "i"`, `$ like_regex "((((((((((a{1000}){1000}){1000}){1000}){1000}){1000}){1000}){1000}){1000}){1000})"`)
 	rej("method arguments", "$.decimal(1,2,3)", "$.time(-1)", "$.time(1.5)", "$.time(\"a\")", "$.decimal(1.5)", "$.decimal(a)", "$.date(1)", "$.datetime(1)", "$.abs(1)", "$.timestamp(1,2)", "$.decimal(,1)", "$.decimal(1,)", "$.time_tz(+1)", "$.decimal(- 1, 2, 3)")
